@@ -802,3 +802,220 @@ def check_zero_trip_dicts(ctx, rep, rule, fns):
                          'header and no data rows) this read raises KeyError' % (name, norm(loop)[:40]), node)
     rep.held(rule, ('petl', '*'), 'dicts filled in data loops', '%d functions scanned' % n, None)
     return n
+
+
+# ------------------------------------------------------------------ where a conversion's per-value policy lives
+def value_transformer_site(ctx, top_fq='petl.transform.conversions:iterfieldconvert'):
+    """(site function, {top-level parameter -> name under which it is visible in the site}).
+    The function that applies one converter to one value and implements the failonerror policy: a nested function of the
+    iterator, or a module-level function the iterator binds with functools.partial / calls with its own parameters.
+    Found by its shape (an `except Exception` handler), not by its name."""
+    from ..absint import handler_types
+    from ..loader import own_nodes
+    top = ctx.project.need_fn(top_fq)
+
+    def has_policy_handler(f):
+        for n in own_nodes(f.node):
+            if isinstance(n, ast.Try) and any(handler_types(h) & {'Exception', 'BaseException'} for h in n.handlers):
+                return True
+        return False
+    # nested functions first
+    todo = list(top.nested.values())
+    while todo:
+        f = todo.pop(0)
+        if has_policy_handler(f):
+            return f, {p: p for p in top.params}
+        todo.extend(f.nested.values())
+    # module-level functions bound or called with the iterator's parameters
+    for n in own_nodes(top.node):
+        if not isinstance(n, ast.Call):
+            continue
+        cands = []
+        if norm(n.func) in ('partial', 'functools.partial') and n.args and isinstance(n.args[0], ast.Name):
+            cands.append((n.args[0].id, n.args[1:], n.keywords))
+        elif isinstance(n.func, ast.Name):
+            cands.append((n.func.id, n.args, n.keywords))
+        for name, args, kws in cands:
+            g = top.module.functions.get(name)
+            if g is None or g is top or not has_policy_handler(g):
+                continue
+            mapping = {}
+            for p, a in zip(g.posparams, args):
+                if isinstance(a, ast.Name) and a.id in top.params:
+                    mapping[a.id] = p
+            for k in kws:
+                if k.arg and isinstance(k.value, ast.Name) and k.value.id in top.params:
+                    mapping[k.value.id] = k.arg
+            return g, mapping
+    return None, {}
+
+
+# ------------------------------------------------------------------ == between raw rows of two tables
+def raw_row_equalities(ctx, fn):
+    """[(event, left sources, right sources)]: `a == b` / `a != b` where both operands are rows exactly as two different
+    sources delivered them (no tuple() / list() / Comparable() in between).  A list row never equals a tuple row, so
+    the result depends on the sequence type the sources happen to use -- e.g. on whether an upstream sort (which hands
+    out tuples) was skipped with presorted=True."""
+    fa, events = analysed(ctx, fn)
+    out = []
+    for ev in events:
+        if ev.kind != 'equal':
+            continue
+        l, r = ev.info['left'], ev.info['right']
+        if not (l and r and all(a[0] in ('ROW', 'HDR') or a == UNDEF for a in l) and
+                all(a[0] in ('ROW', 'HDR') or a == UNDEF for a in r)):
+            continue
+        ls = {a[1] for a in l if a[0] in ('ROW', 'HDR')}
+        rs = {a[1] for a in r if a[0] in ('ROW', 'HDR')}
+        if ls and rs and not (ls & rs):
+            out.append((ev, sorted(ls), sorted(rs)))
+    return out
+
+
+def check_raw_row_equalities(ctx, rep, rule, fns):
+    n = 0
+    for fn in fns:
+        fa, events = analysed(ctx, fn)
+        eqs = [ev for ev in events if ev.kind == 'equal' and
+               any(a[0] in ('ROW', 'HDR') for a in ev.info['left']) and any(a[0] in ('ROW', 'HDR') for a in ev.info['right'])]
+        bad = raw_row_equalities(ctx, fn)
+        for ev, ls, rs in bad:
+            n += 1
+            rep.violated(rule, fn, norm(ev.node)[:60],
+                         'rows of %s and of %s are compared with %s as the sources delivered them: a list row never equals a '
+                         'tuple row, so rows that are equal cell by cell count as different whenever the two inputs use '
+                         'different sequence types -- which the sorted path hides (sort hands out tuples) and presorted=True '
+                         'exposes' % (ls, rs, '==' if ev.info['op'] == 'Eq' else '!='), ev.node)
+    rep.held(rule, ('petl.transform', '*'), 'row equality', 'no comparison of raw rows of two tables (%d reported)' % n, None)
+    return n
+
+
+# ------------------------------------------------------------------ a `missing` that nothing reads
+def dead_missing(ctx, prefixes):
+    """[(where, node, what)]: a view stores its `missing` argument but no method reads self.missing, or a function has a
+    parameter `missing` that its body never reads: the operator accepts the value with which short rows are to be
+    padded and pads nothing."""
+    from ..loader import own_nodes
+    out = []
+    for v in ctx.views.real_views():
+        if not any(v.cls.module.name.startswith(p) for p in prefixes):
+            continue
+        init = v.cls.methods.get('__init__')
+        if init is None or 'missing' not in init.params:
+            continue
+        stores = [n for n in own_nodes(init.node) if isinstance(n, ast.Assign) and
+                  any(norm(t) == 'self.missing' for t in n.targets)]
+        if not stores:
+            continue        # handed on at construction (stack(..., missing=missing)): judged by the forwarding rule
+        read = False
+        family = list(ctx.res.mro(v.cls))
+        # (a private base class that only holds the shared constructor: its subclasses do the reading)
+        for v2 in ctx.views.real_views():
+            if v2.cls is not v.cls and any(c is v.cls for c in ctx.res.mro(v2.cls)):
+                family.append(v2.cls)
+        for c in family:
+            for m in c.methods.values():
+                if m.name == '__init__':
+                    continue
+                if any(isinstance(x, ast.Attribute) and x.attr == 'missing' and isinstance(x.ctx, ast.Load) and
+                       norm(x.value) == 'self' for x in ast.walk(m.node)):
+                    read = True
+        if not read:
+            out.append((init, stores[0], 'view attribute self.missing of %s' % v.cls.name))
+    for fn in ctx.functions(list(prefixes)):
+        if fn.cls is not None and fn.name in ('__init__', '__new__'):
+            continue        # (__new__ of a tuple subclass must accept what __init__ accepts)
+        if 'missing' not in fn.params:
+            continue
+        if fn.node.body and all(isinstance(b, (ast.Pass, ast.Raise)) or (isinstance(b, ast.Expr) and isinstance(b.value, ast.Constant))
+                                for b in fn.node.body):
+            continue
+        read = any(isinstance(x, ast.Name) and x.id == 'missing' and isinstance(x.ctx, ast.Load) for x in ast.walk(fn.node))
+        if not read:
+            out.append((fn, fn.node, 'parameter `missing` of %s' % fn.name))
+    return out
+
+
+# ------------------------------------------------------------------ d.get(k) is None: "absent" or "mapped to None"?
+def get_none_conflations(fn):
+    """[(test node, local, mapping)]: `x = d.get(k)` on a mapping the caller supplied (a parameter of the function or of
+    an enclosing one, not **kwargs), followed by a test `x is None` / `x is not None`: a key that is present and mapped to
+    None is taken for an absent key."""
+    from ..loader import own_nodes
+    params = set()
+    kwargs = set()
+    f = fn
+    while f is not None:
+        params |= set(f.params)
+        if f.kwarg:
+            kwargs.add(f.kwarg)
+        f = f.parent
+    got = {}
+    for n in own_nodes(fn.node):
+        if isinstance(n, ast.Assign) and len(n.targets) == 1 and isinstance(n.targets[0], ast.Name) and \
+                isinstance(n.value, ast.Call) and isinstance(n.value.func, ast.Attribute) and n.value.func.attr == 'get' and \
+                isinstance(n.value.func.value, ast.Name) and n.value.func.value.id in params and \
+                n.value.func.value.id not in kwargs and not n.value.keywords and \
+                (len(n.value.args) == 1 or (len(n.value.args) == 2 and isinstance(n.value.args[1], ast.Constant) and
+                                            n.value.args[1].value is None)):
+            got[n.targets[0].id] = n.value.func.value.id
+    out = []
+    if not got:
+        return out
+    for n in own_nodes(fn.node):
+        if isinstance(n, ast.Compare) and len(n.ops) == 1 and isinstance(n.ops[0], (ast.Is, ast.IsNot, ast.Eq, ast.NotEq)):
+            l, r = n.left, n.comparators[0]
+            for a, b in ((l, r), (r, l)):
+                if isinstance(a, ast.Name) and a.id in got and isinstance(b, ast.Constant) and b.value is None:
+                    out.append((n, a.id, got[a.id]))
+    return out
+
+
+# ------------------------------------------------------------------ module-level memos
+_MUTATORS = ('append', 'add', 'update', 'setdefault', 'pop', 'popitem', 'clear', 'extend', 'insert', 'remove', 'discard',
+             '__setitem__', 'appendleft')
+
+
+def module_state_mutations(fn):
+    """[(node, name)]: the function changes a mutable object that lives at module level (a dict / list / set bound by a
+    top-level assignment): what it computes can then depend on what was computed before in the same process (a memo
+    keyed by part of the arguments, a registry filled as a side effect)."""
+    from ..loader import own_nodes
+    tree = getattr(fn.module, 'tree', None)
+    if tree is None:
+        return []
+    globs = set()
+    for st in tree.body:
+        if isinstance(st, ast.Assign) and len(st.targets) == 1 and isinstance(st.targets[0], ast.Name):
+            v = st.value
+            if isinstance(v, (ast.Dict, ast.List, ast.Set)) or \
+                    (isinstance(v, ast.Call) and norm(v.func) in ('dict', 'list', 'set', 'OrderedDict', 'defaultdict',
+                                                                  'collections.OrderedDict', 'collections.defaultdict',
+                                                                  'collections.deque', 'deque', 'Counter')):
+                globs.add(st.targets[0].id)
+    if not globs:
+        return []
+    local = set(fn.params)
+    f = fn.parent
+    while f is not None:
+        local |= set(f.params)
+        f = f.parent
+    for n in own_nodes(fn.node):
+        if isinstance(n, ast.Name) and isinstance(n.ctx, ast.Store):
+            local.add(n.id)
+    declared = set()
+    for n in own_nodes(fn.node):
+        if isinstance(n, ast.Global):
+            declared |= set(n.names)
+    cand = (globs - local) | (globs & declared)
+    out = []
+    for n in own_nodes(fn.node):
+        if isinstance(n, ast.Subscript) and isinstance(n.ctx, (ast.Store, ast.Del)) and isinstance(n.value, ast.Name) and \
+                n.value.id in cand:
+            out.append((n, n.value.id))
+        elif isinstance(n, ast.Call) and isinstance(n.func, ast.Attribute) and n.func.attr in _MUTATORS and \
+                isinstance(n.func.value, ast.Name) and n.func.value.id in cand:
+            out.append((n, n.func.value.id))
+        elif isinstance(n, ast.AugAssign) and isinstance(n.target, ast.Name) and n.target.id in (globs & declared):
+            out.append((n, n.target.id))
+    return out
